@@ -2,6 +2,7 @@ import CkptVerif.Model.Online
 import CkptVerif.Model.Mixed
 import CkptVerif.Model.Revolve
 import CkptVerif.Spec.Configs
+import CkptVerif.Model.ActionApi
 /-!
 # Line-protocol driver over the executable model and the spec monitor
 
@@ -203,25 +204,6 @@ def ppON : Option Nat → String
 
 def ppStList (l : List Storage) : String := " ".intercalate (l.map stName)
 def ppNatList (l : List Nat) : String := " ".intercalate (l.map toString)
-
-def steps : Action → List Nat
-  | .forward n0 n1 _ _ _ => List.range' n0 (n1 - n0)
-  | .reverse n1 n0 _ => (List.range' n0 (n1 - n0)).reverse
-  | _ => []
-
-def pyBool (b : Bool) : String := if b then "True" else "False"
-def pySt : Storage → String
-  | .ram => "StorageType.RAM" | .disk => "StorageType.DISK" | .work => "StorageType.WORK" | .none => "StorageType.NONE"
-def pyNat (n : Nat) : String := if n = maxsize then "sys.maxsize" else toString n
-
-/-- `CheckpointAction.__repr__` -/
-def pyRepr : Action → String
-  | .forward n0 n1 wi wa st => s!"Forward({pyNat n0}, {pyNat n1}, {pyBool wi}, {pyBool wa}, {pySt st})"
-  | .reverse n1 n0 c => s!"Reverse({pyNat n1}, {pyNat n0}, {pyBool c})"
-  | .copy n s d => s!"Copy({pyNat n}, {pySt s}, {pySt d})"
-  | .move n s d => s!"Move({pyNat n}, {pySt s}, {pySt d})"
-  | .endForward => "EndForward()"
-  | .endReverse => "EndReverse()"
 
 def kernel : List String → List String
   | ["nadv", n, s, traj] =>
